@@ -46,6 +46,32 @@ REDIRECTS = [
     redirect(POOL, "use tokio::sync::{RwLock, oneshot};", "use tokio::sync::RwLock;\n#[cfg(kani)]\nuse crate::c07_coll::oneshot;"),
     redirect("src/consensus/block_producer.rs", "use tokio::sync::oneshot;", "use crate::c07_coll::oneshot;"),
 ]
+# Kani encodes every async fn's state machine as a union and CBMC handles unions byte-wise; one nested `.await`
+# is enough to exhaust memory (measured on votor.rs, C05).  In the Kani scratch tree only, the async plumbing of
+# pool.rs is therefore compiled as ordinary functions, bodies verbatim: `async fn` -> `fn`, `.await` dropped (every
+# await in pool.rs is on another pool fn or on the recording channel's `send`), `#[async_trait]` dropped, and the
+# `.await` after the four trait methods dropped at their call sites.  Native replay runs the unmodified async code.
+def _deasync_pool(text):
+    i = text.index("#[cfg(test)]\nmod tests")
+    head, tail = text[:i], text[i:]
+    head = re.sub(r"\n\s*\.await", "", head)
+    head = head.replace(".await", "")
+    head = head.replace("async fn ", "fn ")
+    head = head.replace("#[async_trait]\n", "")
+    head = head.replace("use async_trait::async_trait;\n", "")
+    return head + tail
+
+DEASYNC = [
+    {"file": POOL, "pattern": r"(?s)\A.*\Z", "replacement": None, "func": _deasync_pool, "count": 1, "required": True},
+    {"file": "src/consensus.rs", "pattern": r"\.recover_from_standstill\(\)\.await", "replacement": ".recover_from_standstill()", "count": 1, "required": True},
+    {"file": "src/consensus.rs", "pattern": r"\.add_vote\(vote\)\.await", "replacement": ".add_vote(vote)", "count": 1, "required": True},
+    {"file": "src/consensus.rs", "pattern": r"\.add_cert\(cert\)\.await", "replacement": ".add_cert(cert)", "count": 1, "required": True},
+    {"file": "src/consensus.rs", "pattern": r"(\.add_block\(block_id, block_info\.parent\))\s*\.await", "replacement": r"\1", "count": 1, "required": True},
+    {"file": "src/repair.rs", "pattern": r"(\.add_block\(\(\*slot, block_info\.hash\), block_info\.parent\))\s*\.await", "replacement": r"\1", "count": 1, "required": True},
+    {"file": "src/consensus/block_producer.rs", "pattern": r"(\.add_block\(block_id, block_info\.parent\))\s*\.await", "replacement": r"\1", "count": 1, "required": True},
+]
+REDIRECTS = REDIRECTS + DEASYNC
+
 CBMC = ["--unwindset", "memcmp.0:34", "--max-field-sensitivity-array-size", "16"]
 SIGN_STUB = "crypto::aggsig::SecretKey::sign"
 ASSUMPTIONS = [
